@@ -882,78 +882,84 @@ def check_generic(ctx):
     return finish(ctx, "bounded: see families/cells")
 
 
+def variants_for(ctx, pid):
+    """Executor variants of the product checks (also used by --replay)."""
+    if pid == "C12":
+        b = build_executor(ctx)
+        return [("p1", b, {}, {}), ("p1again", b, {}, {}), ("p2", b, {}, {"GOGC": "10", "GOMAXPROCS": "2"}),
+                ("p3", b, {}, {"GOGC": "400", "GOMAXPROCS": "16"})]
+    if pid == "C14":
+        b = build_executor(ctx)
+        return [("typed", b, dict(CELLS["typed11"]), {}), ("unsafe", b, dict(CELLS["unsafe1"]), {}),
+                ("typedidx", b, dict(CELLS["typed1"], perm=True), {}), ("exchange", b, dict(CELLS["exch8"]), {}),
+                ("mapt", b, dict(CELLS["mapt1"]), {})]
+    if pid == "C20":
+        return [(n, build_executor(ctx, t, "arkexec_" + n), {}, {}) for n, t in
+                [("plain", "verif"), ("tiny", "verif,ark_tiny"), ("debug", "verif,ark_debug"), ("tinydebug", "verif,ark_tiny,ark_debug")]]
+    return None
+
+
 def do_replay(path, ctxseed=1):
+    """Re-execute a recorded violation: the operation sequence under the recorded executor configuration (with the
+    full batteries after every operation), through the monitor; product properties through their variants and
+    ArkProd; differential properties with their ablation; recorded commands (registry, concurrency, crashes) as they were."""
     r = json.load(open(path))
-    ctx = Ctx(r["property"], "quick", ctxseed)
+    pid = r["property"]
+    ctx = Ctx(pid, "quick", ctxseed)
     try:
         build_executor(ctx)
-        d = os.path.join(ctx.work, "replay")
-        os.makedirs(d)
-        for t in glob.glob(os.path.join(SPEC, "*.tla")):
-            shutil.copy(t, d)
-        seq = os.path.join(d, "r.seq")
-        open(seq, "w").write(json.dumps(r["ops"]) + "\n")
-        cfg = dict(r["cfg"], probes=-1, everyop=True)
-        outs = run_exec(ctx, seq, cfg, os.path.join(d, "log"), 1)
-        v = run_monitor(ctx, outs[0][0])
-        print(json.dumps(v, indent=1))
-        own = [x for x in v["viol"] if x["cls"].startswith(r["property"] + ".")]
+        own = []
+        if r.get("ops"):
+            vs = variants_for(ctx, pid)
+            if vs:
+                d = os.path.join(ctx.work, "replay")
+                os.makedirs(d)
+                seq = os.path.join(d, "r.seq")
+                open(seq, "w").write(json.dumps(r["ops"]) + "\n")
+                cfg = dict(r["cfg"])
+                if pid == "C14":
+                    for k in ("path", "caps", "relst", "perm", "fill", "mapt"):
+                        cfg.pop(k, None)
+                product_check(ctx, pid, vs, [("seq", seq, 1000, cfg)], "replay")
+            else:
+                for vi in exec_one(ctx, r["ops"], r["cfg"], "replay"):
+                    ctx.violations.append(dict(cls=vi["cls"], detail=vi["d"], line=vi["l"], ops=r["ops"], cfg=r["cfg"], family="replay", cell="replay"))
+                if pid in ("C15", "C16") and ctx.violations:
+                    attribute_by_ablation(ctx)
+        elif r.get("cmd"):
+            cmd = list(r["cmd"])
+            name = os.path.basename(cmd[0])
+            if name == "arkexec_race":
+                out = os.path.join(ctx.work, "arkexec_race")
+                p, dt = run(["go", "build", "-race", "-tags", "verif", "-o", out, "./cmd/arkexec"], 1200, env=GOENV, cwd=HARNESS)
+                cmd[0] = out
+            elif name == "arkexec_tiny":
+                cmd[0] = build_executor(ctx, "verif,ark_tiny", "arkexec_tiny")
+            else:
+                cmd[0] = ctx.binpath
+            lp = os.path.join(ctx.work, "replay.ndjson")
+            cmd[cmd.index("-out") + 1] = lp
+            p, dt = run(cmd, 1200, env=dict(os.environ, GORACE="halt_on_error=0 exitcode=0"))
+            if any(m in p.stdout for m in CRASH_MARKS) and p.returncode != 0:
+                ctx.violations.append(dict(cls=pid + ".crash", detail="crash", line=0, ops=None, cfg=r["cfg"], family="replay", cell="replay"))
+            elif "WARNING: DATA RACE" in p.stdout and "mlange-42/ark/ecs." in p.stdout:
+                ctx.violations.append(dict(cls="C13.race", detail="race", line=0, ops=None, cfg=r["cfg"], family="replay", cell="replay"))
+            if os.path.exists(lp) and p.returncode == 0:
+                for t in ("ArkTrace.tla", "ArkWorld.tla"):
+                    shutil.copy(os.path.join(SPEC, t), ctx.work)
+                for vi in run_monitor(ctx, lp)["viol"]:
+                    ctx.violations.append(dict(cls=vi["cls"], detail=vi["d"], line=vi["l"], ops=None, cfg=r["cfg"], family="replay", cell="replay"))
+        own = [v for v in ctx.violations if v["cls"].startswith(pid + ".")]
+        print(json.dumps([dict(cls=v["cls"], detail=v["detail"]) for v in ctx.violations][:20], indent=1))
         if own:
-            print("VIOLATION property=%s replay=%s" % (r["property"], path))
+            print("VIOLATION property=%s replay=%s" % (pid, path))
             return 1
         return 0
+    except Inconclusive as e:
+        print("INCONCLUSIVE property=%s: %s" % (pid, e))
+        return 2
     finally:
         ctx.cleanup()
-
-
-def run_tlc_model(ctx, module, mcdefs, cfgtext, label, workers=8, timeout=900):
-    """Run TLC on a stand-alone model (no emission); returns (generated, distinct, violated-invariant or None)."""
-    d = os.path.join(ctx.work, "model-" + label)
-    os.makedirs(d, exist_ok=True)
-    for t in glob.glob(os.path.join(SPEC, "*.tla")):
-        shutil.copy(t, d)
-    open(os.path.join(d, "MC_x.tla"), "w").write("---- MODULE MC_x ----\nEXTENDS %s\n%s\n====\n" % (module, mcdefs))
-    open(os.path.join(d, "x.cfg"), "w").write(cfgtext)
-    p, dt = run(["tlc", "-workers", str(workers), "-metadir", os.path.join(d, "meta"), "-config", "x.cfg", "MC_x.tla"], timeout, cwd=d)
-    gen, dist = parse_tlc_stats(p.stdout)
-    ctx.stats["states"] += dist
-    ctx.stats["transitions"] += gen
-    bad = None
-    if "Model checking completed. No error has been found" not in p.stdout:
-        m = re.search(r"(Invariant|Action property|Temporal properties) ?(\w+)? ?(is|were) violated", p.stdout)
-        if not m:
-            raise Inconclusive("TLC failed on %s:\n%s" % (label, p.stdout[-2500:]))
-        bad = m.group(2) or m.group(1)
-    ctx.stats["families"].append(dict(family=label, states=dist, transitions=gen, wall_s=round(dt, 1), violated=bad))
-    ctx.stats["tlc_cmds"].append("tlc -config x.cfg MC_x.tla  # %s: %s" % (label, cfgtext.replace("\n", "; ")[:300]))
-    return gen, dist, bad
-
-
-def exec_logs_and_monitor(ctx, jobs, label):
-    """jobs: list of (cmd, cfg, logpath, cell).  Runs the executor commands, then the monitor on every log."""
-    def one(j):
-        cmd, cfg, lp, cell = j
-        return exec_proc(ctx, cmd, label, cfg, label, cell) or dict(read=0, executed=0, events=0, panics=0, crashed=True)
-    with ThreadPoolExecutor(max_workers=NCPU) as ex:
-        stats = list(ex.map(one, jobs))
-    live = [(j, st) for j, st in zip(jobs, stats) if not st.get("crashed")]
-    for (cmd, cfg, lp, cell), st in live:
-        shutil.copy(os.path.join(SPEC, "ArkTrace.tla"), os.path.dirname(lp))
-        shutil.copy(os.path.join(SPEC, "ArkWorld.tla"), os.path.dirname(lp))
-    with ThreadPoolExecutor(max_workers=MON_PAR) as ex:
-        verdicts = list(ex.map(lambda js: run_monitor(ctx, js[0][2]), live))
-    for ((cmd, cfg, lp, cell), st), v in zip(live, verdicts):
-        if v["seqs"] != st["executed"] or v["lines"] != st["events"]:
-            raise Inconclusive("monitor consumed %s/%s lines of %s" % (v["lines"], st["events"], lp))
-        ctx.stats["traces"] += v["seqs"]
-        ctx.stats["events"] += v["lines"]
-        for vi in v["viol"]:
-            ctx.violations.append(dict(cls=vi["cls"], detail=vi["d"], line=vi["l"], ops=load_seq_of_log(lp, vi["seq"]), cfg=cfg,
-                                       family=label, cell=cell, cmd=cmd))
-        ctx.stats["cells"].append(dict(family=label, cell=cell, cfg=cfg, sequences=st["executed"], events=st["events"]))
-        if not ctx.stats["samples"]:
-            with open(lp) as f:
-                ctx.stats["samples"].append(dict(family=label, cell=cell, log_head=[json.loads(next(f)) for _ in range(3)]))
 
 
 def zip_logs(paths, mode, out):
@@ -1095,14 +1101,13 @@ def check_c12(ctx):
         if g["design_violation"]:
             raise Inconclusive("design check of %s fails (%s); run the property's own check" % (fam, g["design_violation"]))
         gens.append((fam, g))
-    variants = [("p1", b, {}, {}), ("p2", b, {}, {"GOGC": "10", "GOMAXPROCS": "2"}), ("p3", b, {}, {"GOGC": "400", "GOMAXPROCS": "16"})]
+    variants = variants_for(ctx, "C12")
     sources = []
     for fam, g in gens:
         keep = max(1, min(1000, int(1000 * (6000 if quick else 60000) / max(1, g["nseq"]))))
         sources.append(("seq", g["seqs"], keep, dict(CELLS["typed1"], comps=FAMILIES[fam]["exec"]["comps"], probes=4, seed=ctx.seed, stats=True)))
         sources.append(("seq", g["seqs"], keep, dict(CELLS["unsafe2"], comps=FAMILIES[fam]["exec"]["comps"], probes=4, seed=ctx.seed + 1, stats=True)))
     sources += driven_sources(ctx, b, ["wide", "rel2", "obs", "lock", "reset"], 20 if quick else 300, "typed11", dict(stats=True))
-    variants.insert(1, ("p1again", b, {}, {}))
     product_check(ctx, "C12", variants, sources, "c12")
     return finish(ctx, "product traces of 3 processes")
 
